@@ -46,6 +46,8 @@ def record_one(job):
         "nslots": job["nslots"],
         "sem": bool(job.get("sem", False)),
         "sharing": bool(job.get("sharing", False)),
+        # histories with vectorised fills may carry zero-weight sparse bins: the multiset semantics is compared modulo them
+        "strip": job.get("kind", "") in ("frame", "numpy", "shared"),
         "gamma": [str(a), str(b)],
         "events": events,
         "cut": rec.cut or "",
@@ -59,6 +61,17 @@ def record_all(jobs, nproc=14):
     chunk = max(1, len(jobs) // (nproc * 4))
     with ProcessPoolExecutor(max_workers=nproc) as ex:
         return list(ex.map(record_one, jobs, chunksize=chunk))
+
+
+def _scrub(v):
+    # JsonDeserialize rejects null: absent optional arguments are logged as the string "none"
+    if v is None:
+        return "none"
+    if isinstance(v, dict):
+        return {k: _scrub(x) for k, x in v.items()}
+    if isinstance(v, list):
+        return [_scrub(x) for x in v]
+    return v
 
 
 def validate(traces, nproc=8, module="HgTrace", per_batch=None, timeout=1800):
@@ -80,7 +93,7 @@ def validate(traces, nproc=8, module="HgTrace", per_batch=None, timeout=1800):
         for bi, batch in pending:
             path = os.path.join(sc, "batch_%d_%d_%d.json" % (os.getpid(), bi, rounds))
             with open(path, "w") as f:
-                json.dump({"traces": batch}, f)
+                json.dump({"traces": _scrub(batch)}, f)
             jobs.append(dict(module=module, cfg=TRACE_CFG, env={"TRACE_FILE": path}, workers=1, timeout=timeout))
         results = tlc.run_parallel(jobs, nproc)
         nxt = []
